@@ -178,6 +178,10 @@ func (c *Crew) SetMachine(ctx context.Context, mid string, src *crew.SpecSource,
 		}
 
 		c.Machines[mid] = m
+	} else if state != nil {
+		// Replace the state of the existing machine (we report
+		// the new state below, so we had better have it).
+		m.State = DefaultState(state.Copy())
 	}
 
 	if src != nil {
